@@ -68,7 +68,7 @@ def strategy(tier: str) -> Any:
 def _base(tier: str) -> Any:
     return sc.sched_case(tier=tier, modes=("ctl", "ctl", "free", "ctl-ex"), min_sites=3, max_sites=10, wide=True,
                          seq_rate=0.1, prio=(-2, 4), config_rate=0.15, max_mc=4, n_setup=2, setup_call_rate=0.15,
-                         spawn_fail_rate=0.1, flag_rate=0.3)
+                         spawn_fail_rate=0.1, flag_rate=0.3, n_debug=2)
 
 
 def run_shard(H: Harness) -> None:
